@@ -338,3 +338,25 @@ def remove_entry_point(self, asset, attackstep_name):
             entry_point_tuple[1].remove(attackstep_name)
         if not entry_point_tuple[1]:
             self.entry_points.remove(entry_point_tuple)
+
+
+# ----------------------------------------------------------------------------------------------- T20
+# C15: "association lookup by field names and asset types answers correctly in both orientations": an
+# association matches when (fields, asset types) fit left/right as given, or BOTH flipped together.
+def get_association_by_fields_and_assets(self, first_field, second_field, first_asset_name, second_asset_name):
+    first_asset = self.get_asset_by_name(first_asset_name)
+    if first_asset is None:
+        raise LookupError('unknown asset')
+    second_asset = self.get_asset_by_name(second_asset_name)
+    if second_asset is None:
+        raise LookupError('unknown asset')
+    for assoc in self.associations:
+        if assoc.left_field.fieldname == first_field and assoc.right_field.fieldname == second_field and \
+                first_asset.is_subasset_of(assoc.left_field.asset) and \
+                second_asset.is_subasset_of(assoc.right_field.asset):
+            return assoc
+        if assoc.left_field.fieldname == second_field and assoc.right_field.fieldname == first_field and \
+                second_asset.is_subasset_of(assoc.left_field.asset) and \
+                first_asset.is_subasset_of(assoc.right_field.asset):
+            return assoc
+    return None
